@@ -20,7 +20,12 @@ pub enum Op {
     Insert(u16, u8),
     Find(u16, u8),
     Entries,
+    /// the same key stored many times in a row (2 .. 1024 times; 255/256/257 among the counts)
+    #[serde(alias = "Hammer")]
+    Hammer(u16, u8),
 }
+
+pub const HAMMER_COUNTS: [usize; 8] = [2, 16, 255, 256, 257, 511, 512, 1024];
 
 #[derive(Debug, Clone, Serialize, Deserialize)]
 pub struct Case {
@@ -86,6 +91,7 @@ impl Prop for ModelBased {
     fn strategy(&self, _: &Ctx) -> BoxedStrategy<Case> {
         let op = prop_oneof![
             5 => (any::<u16>(), 0u8..4).prop_map(|(k, a)| Op::Insert(k, a)),
+            1 => (any::<u16>(), 0u8..8).prop_map(|(k, n)| Op::Hammer(k, n)),
             3 => (any::<u16>(), 0u8..4).prop_map(|(k, a)| Op::Find(k, a)),
             1 => Just(Op::Entries),
         ];
@@ -111,7 +117,25 @@ impl Prop for ModelBased {
         let mut displacements = 0;
         let mut overwrites = 0;
         let ctxt = |i: usize| format!("{} tables x {} buckets, scheme {}, {} keys, after op {}", tables, buckets, case.scheme % 6, ks.len(), i);
-        for (i, op) in case.ops.iter().enumerate() {
+        // a hammer is so many plain inserts of one key, each checked like any other (at most two per case)
+        let mut ops: Vec<Op> = vec![];
+        let mut hammers = 0;
+        for op in case.ops.iter() {
+            match *op {
+                Op::Hammer(k, n) if hammers < 2 => {
+                    hammers += 1;
+                    for r in 0..HAMMER_COUNTS[n as usize % HAMMER_COUNTS.len()] {
+                        ops.push(Op::Insert(k, (r % 4) as u8));
+                    }
+                }
+                Op::Hammer(k, _) => ops.push(Op::Insert(k, 0)),
+                o => ops.push(o),
+            }
+        }
+        if hammers > 0 {
+            loc.class("same_key_stored_many_times_in_a_row");
+        }
+        for (i, op) in ops.iter().enumerate() {
             loc.eval();
             match *op {
                 Op::Insert(k, actor) => {
@@ -184,7 +208,7 @@ impl Prop for ModelBased {
                         (got, _) => return Err(format!("{}: find({:#x}) returned {:?}; model: resident = {}, latest = {:?}", ctxt(i), ks[ki], got, want_present, latest.get(&ki))),
                     }
                 }
-                Op::Entries => {}
+                Op::Entries | Op::Hammer(..) => {}
             }
             // (4) entries() = number of retrievable keys <= capacity
             if table.entries() != present.len() {
